@@ -38,7 +38,9 @@ def _call(a):
     from xfab import structure
     import numpy as np
     try:
-        return (structure.multiplicity(pos, sgno=no, cell_choice=setting),
+        k = int(abs(pos[0] * 1000)) % 3
+        p1 = [list, np.array, list][k](pos)
+        return (structure.multiplicity(p1, sgno=no if k else np.int64(no), cell_choice=setting),
                 structure.multiplicity(np.array(pos), sgname=name))
     except Exception as ex:
         return repr(ex)
